@@ -15,12 +15,17 @@ class C02(SysBase):
             "all pieces obtained, output files byte-identical to the content, extractor started, no panic, completion within "
             "20 virtual minutes of inactivity. Non-trivial: runs with at least two peers or two pieces; distinct lines.")
     statement_status = "partial: see Props/C02.v (liveness under scheduler fairness is not machine-checked)"
-    classes = {1: "sole-holder-idle-after-reserver-left"}
+    classes = {1: "sole-holder-idle-after-reserver-left", 2: "sole-holder-have-while-reserved"}
 
     def corpus(self):
         return [self.mk(5, 16384, [40000, 5, 0, 30000], [("11111", "honest")], "corpus", True),
                 self.mk(6, 20000, [50000], [("101", "honest"), ("011", "slow"), ("111", "corrupt 3")], "corpus", True),
-                self.mk(7, 16384, [20000, 20000], [("111", "dropafter 4"), ("111", "honest")], "corpus", True)]
+                self.mk(7, 16384, [20000, 20000], [("111", "dropafter 4"), ("111", "honest")], "corpus", True),
+                # the witnesses of the two known findings
+                self.mk(290586, 16384, [195888], [("1" * 12, "holdleave 5000"), ("000000001000", "honest"), ("111111110111", "honest")],
+                        "sole-holder-big", True, sole=(8, 0)),
+                self.mk(909863, 16384, [40467], [("001", "holdleave 2000"), ("001", "havewait 500"), ("110", "honest")],
+                        "sole-holder", True, sole=(2, 1))]
 
     def gen(self, rng, tier):
         k = {"quick": 40, "thorough": 800, "search": 150}.get(tier, 40)
@@ -38,7 +43,7 @@ class C02(SysBase):
             for p in range(npeers):
                 bits = "".join("1" if x else "0" for x in have[p])
                 if p < honest:
-                    beh = rng.choice(["honest", "honest", "slow", "lateunchoke"])
+                    beh = rng.choice(["honest", "honest", "slow", "lateunchoke", "havelater %d" % rng.choice([0, 300, 3000])])
                 else:
                     beh = rng.choice(["dropafter %d" % rng.randrange(1, 9), "garbage %d" % rng.randrange(1, 6),
                                       "corrupt %d" % rng.randrange(1, 4), "dup", "honest"])
@@ -55,10 +60,16 @@ class C02(SysBase):
             p = rng.randrange(n)
             only_p = "".join("1" if i == p else "0" for i in range(n))
             rest = "".join("0" if i == p else "1" for i in range(n))
-            peers = [("1" * n, "holdleave %d" % rng.choice([2000, 5000, 20000])), (only_p, "honest"), (rest, "honest")]
+            # the sole holder either advertises p in its bitfield or announces it by Have while p is reserved elsewhere
+            # (havelater: unchokes unasked 30 s later; havewait: only when asked -- known finding 2)
+            r = rng.random()
+            sole_beh = "honest" if r < 0.4 else ("havelater %d" if r < 0.8 else "havewait %d") % rng.choice([500, 1500])
+            holder_bits = "1" * n if rng.random() < 0.5 else only_p      # the latter is certain to sit on p
+            peers = [(holder_bits, "holdleave %d" % rng.choice([2000, 5000, 20000])), (only_p, sole_beh), (rest, "honest")]
             if rng.random() < 0.3:
                 peers.insert(0, ("1" * n, "holdleave %d" % rng.choice([3000, 9000])))
-            cases.append(self.mk(rng.randrange(1, 10 ** 6), pl, flens, peers, "sole-holder" + ("-big" if big else ""), True, sole=p))
+            cases.append(self.mk(rng.randrange(1, 10 ** 6), pl, flens, peers, "sole-holder" + ("-big" if big else ""), True,
+                                 sole=(p, 1 if sole_beh.startswith("havewait") else 0)))
         return cases
 
 
